@@ -223,6 +223,45 @@ PROPS["C07"] = {
     },
 }
 
+PROPS["C11"] = {
+    "level": "exploration",
+    "rule": ("each run draws a DNS path behaviour from the family {transparent; lower/upper/random case of query names; 7-bit names (strip, replace, refuse); a subset of the eight record types "
+             "answered, others SERVFAIL / NOTIMP / empty NOERROR; answer size limit 512..8192 with drop or truncation; EDNS0 stripped; host names inside answers lower-cased} combined swarm-style, "
+             "plus optional light loss, realised as a middlebox that unpacks every datagram with the real miekg codec, transforms it and re-packs it; the real client Handshake runs against the "
+             "real server through it; on success a transfer phase over the same path sends 1 byte .. several fragments both ways (sizes at fragment boundaries) with content that changes style "
+             "every 512 bytes (random, zero runs, 0xFF runs, CRLF text, repeated byte, all 256 values, mixed-case letters); non-trivial = handshake returned (and, if nil, the transfer was judged); "
+             "distinct = path x negotiated parameters"),
+    "probes": ["handshakes_terminated", "handshakes_succeeded", "handshakes_failed", "transfers_completed", "path_name_mangled", "path_type_refused", "path_answer_too_big", "path_8bit_refused"],
+    "technique": "deterministic simulation: swarm of DNS path behaviours (middlebox fault model) x real handshake, termination bound + success-implies-fidelity-on-the-same-path oracle",
+    "level_text": ("Seeded exploration over a path-behaviour family. Termination: Handshake returns within 30 simulated minutes on every path. Soundness of success: if it returned nil, data sent both ways "
+                   "over the same path must arrive intact (PRF prefix/equality) and completely within 40 simulated minutes; a handshake error is an allowed outcome."),
+    "level_note": "The path model transforms whole messages (names, sections, sizes); it does not model resolver caching or recursion delays. Handshake failure on a hostile path is never a violation.",
+    "tiers": {
+        "quick": {"runs": 600, "chunk": 50, "shrink_s": 40, "stall_s": 300},
+        "thorough": {"runs": 30000, "chunk": 100, "shrink_s": 120, "stall_s": 300},
+    },
+}
+
+PROPS["C12"] = {
+    "level": "exploration",
+    "rule": ("each run establishes a real DNS-tunnel session that transfers data both ways, and meanwhile attacks one side: the server receives 1-12 generated queries from a foreign address or "
+             "from the session's own address (names: root, ordinary lookups under and outside the domain, 1-3 character names, every command letter in both cases with valid / out-of-range / "
+             "non-base-36 user ids, empty / short / maximum-label / high-byte bodies, extreme size fields, header-only, and mutations of the session's own captured queries; 14 query types, 3 "
+             "classes); or the client's genuine answers are replaced (same id) by hostile ones (no records, truncated, records shorter than their order tag, empty strings, root targets, mixed "
+             "types with foreign names, error rcodes, missing question, dropped/duplicated records, payload cut short); non-trivial = the run reached its final judgement; distinct = message-kind sequences"),
+    "probes": ["injected_queries", "hostile_answers", "sessions_intact"],
+    "technique": "deterministic simulation: message injection into live sessions (structured + mutational generators), process-survival / allocation-bound / session-unaffected oracles",
+    "level_text": ("Seeded exploration; the all-messages quantifier is sampled, not enumerated. Oracles: the worker process survives (a panic or a multi-GiB allocation under ulimit is reported with "
+                   "its stack as rule crash / unbounded-allocation by the orchestrator); a single injected query makes the server allocate less than 64 MiB (the repaired server's worst case for a 16 KiB probe answer in 14-byte AAAA records is about 15 MiB; the defect this guards against allocated up to 4 GiB) and its handler finishes within the "
+                   "same quiescence phase; the established session's streams still satisfy the PRF oracle and complete, with unchanged identifiers (for replaced answers, which are also a lost "
+                   "genuine answer, completion is not demanded, integrity is)."),
+    "level_note": "Allocation is measured as the TotalAlloc delta across one quiescence phase with the collector off. Queries the miekg accept function rejects (QR bit, opcode, question count) never reach socketace, as in production.",
+    "tiers": {
+        "quick": {"runs": 1500, "chunk": 100, "shrink_s": 30, "stall_s": 300},
+        "thorough": {"runs": 60000, "chunk": 200, "shrink_s": 90, "stall_s": 300},
+    },
+}
+
 PENDING = "check under construction in this round; see DESIGN.md section 5 for the planned simulation"
 NOT_APPLICABLE = [
     {"property_id": "C08", "reason": "pure function of one byte string (codec Encode/Decode): no schedule, clock, fault or second party for a simulator to control; see DESIGN.md section 6"},
